@@ -1,4 +1,6 @@
 import Casket.Model.Dispenser
+import Casket.Model.Parser
+import Casket.Model.Exec
 import Casket.Spec.Dispenser
 import Driver.Proto
 /-
@@ -62,9 +64,53 @@ def dispJudge (_ : List String) (out : String) : String :=
 
 def setupJudge (_ : List String) (out : String) : String := Casket.DispenserSpec.setupVerdict out
 
+/-! c11.exec  confighex cbfail   out = V=<trace>/<ok|err>|S=<trace>/<ok|err> -/
+
+open Casket.Parser Casket.Exec in
+def bytesStr (b : Bytes) : String := String.ofList (b.map fun x => Char.ofNat x.toNat)
+
+open Casket.Exec in
+def showEv : Ev → String
+  | .setup c => s!"s:{bytesStr c.dir}:{c.block}:{c.keyIdx}:{Driver.hex c.key}:" ++ ".".intercalate (c.tokens.map fun t => Driver.hex t.text)
+  | .callback d => "c:" ++ bytesStr d
+
+open Casket.Parser Casket.Exec in
+def execModel : List String → String
+  | [cfgHex, cbfail] =>
+    match Driver.unhex cfgHex with
+    | none => "bad-case"
+    | some input =>
+      let dirs : List Bytes := [strBytes "d1", strBytes "d2", strBytes "d3"]
+      match parse { valid := some dirs } 100000 "Casketfile" input with
+      | .ok sbs =>
+        let blocks : List Block := sbs.map fun b => ⟨b.keys, b.tokens⟩
+        let fails : Call → Bool := fun c => c.tokens.any fun t => t.text == strBytes "FAIL"
+        let failDir : Option Bytes := if cbfail == "-" then none else some (strBytes cbfail)
+        let cb := recCallback [strBytes "d1", strBytes "d3"] failDir
+        let run := fun (jv : Bool) =>
+          let r := execute (recSetup fails) cb jv blocks dirs []
+          ",".intercalate ((traceOf r).map showEv) ++ (match r with | .ok _ => "/ok" | .error _ => "/err")
+        "V=" ++ run true ++ "|S=" ++ run false
+      | _ => "V=/err|S=/err"
+  | _ => "bad-case"
+
+/-- the property on the implementation's traces -/
+def execJudge (f : List String) (out : String) : String :=
+  match f, out.splitOn "|" with
+  | [_, cbfail], [v, s] =>
+    match (v.drop 2).toString.splitOn "/", (s.drop 2).toString.splitOn "/" with
+    | [vt, vr], [st, sr] =>
+      let setups := fun (t : String) => (t.splitOn ",").filter fun e => e.startsWith "s:"
+      let cbFailed := cbfail != "-" && (st.splitOn ",").contains ("c:" ++ cbfail)
+      if Casket.DispenserSpec.startAgrees (setups vt) (setups st) (vr == "ok") (sr == "ok") cbFailed then "ok"
+      else "bad:disagree:validation and start do not make the same setup calls / do not agree on the outcome"
+    | _, _ => "bad:unparsable:" ++ out
+  | _, _ => "bad:unparsable:" ++ out
+
 def streams : List Driver.Stream := [
   { name := "c11.disp", model := dispModel, judge := dispJudge },
-  { name := "c11.setup", model := fun _ => "total", judge := setupJudge }
+  { name := "c11.setup", model := fun _ => "total", judge := setupJudge },
+  { name := "c11.exec", model := execModel, judge := execJudge }
 ]
 
 end Driver.C11
